@@ -225,6 +225,20 @@ def vary_params(rng, decls):
     return out
 
 
+def with_param_values(decls, values):
+    """copy of decls with the given parameter values ({"p": 2.0, "r": [..]}; lists are cut / padded to the declared length)"""
+    import copy
+
+    out = copy.deepcopy(decls)
+    for d in out:
+        if d["k"] == "par" and d["name"] in values:
+            d["val"] = float(values[d["name"]])
+        elif d["k"] == "vpar" and d["name"] in values:
+            v = list(values[d["name"]])
+            d["vals"] = [float(v[i % len(v)]) for i in range(len(d["vals"]))]
+    return out
+
+
 def finish_case(rng, decls, node, vrel, family, n_points=3, margin=1e-2):
     """Attach V and regular points; None when no regular point was found."""
     decls = vary_params(rng, decls)
@@ -396,6 +410,41 @@ def shared_case(rng, case, form=None):
         return None
     c["share"] = True
     c["dag_form"] = DAG_FORMS[form]
+    return c
+
+
+# names that differ only in zero padding (t1 / t01, node7 / node007, vector bases s1 / s01, matrices M2 / M02): different variables,
+# although their natural sort keys coincide
+TWIN_NAMES = {"a": "t1", "b": "t01", "x": "s1", "y": "s01", "x2": "node7", "x10": "node007", "A": "M2", "G": "M02"}
+
+
+def _twin(nm):
+    base, sep, rest = nm.partition("[")
+    return TWIN_NAMES.get(base, base) + sep + rest
+
+
+def twin_named_case(case):
+    """the same finished case with its variables renamed to zero-padded twins (values, V relation and family unchanged)"""
+    import copy
+
+    c = copy.deepcopy(case)
+    for d in c["decls"]:
+        if d["k"] in ("var", "vec", "mat"):
+            d["name"] = _twin(d["name"])
+
+    def walk(n):
+        if isinstance(n, list):
+            if n and isinstance(n[0], str) and n[0] in ("var", "vec", "mat") and len(n) >= 2 and isinstance(n[1], str):
+                n[1] = _twin(n[1])
+            for x in n:
+                walk(x)
+
+    for key in ("node", "nodes"):
+        if key in c:
+            walk(c[key])
+    c["V"] = [_twin(nm) for nm in c["V"]]
+    c["points"] = [{_twin(k): v for k, v in pt.items()} for pt in c["points"]]
+    c["twin_names"] = True
     return c
 
 
